@@ -1,3 +1,4 @@
+import Gtree.Lemmas.SourceRefines
 import Gtree.Model.Api
 import Gtree.Lemmas.MkdirExact
 /-
@@ -167,4 +168,13 @@ example : ∃ (ts : List Bytes) (roots : List T) (fs : FS), GoodList ts ∧ AllG
   · intro i _ n; simp [FS.lookup]
   · decide
 
+end Gtree
+
+namespace Gtree
+/-- Tie to the source: which nodes are regular files is decided by `fileConsiderer.isFile` (file_considerer.go,
+    translated on this run), which is the model's `isFileNode`: no children, and the name ends with a configured
+    extension. -/
+theorem C06_is_file_is_the_source (exts : List Bytes) (h : Nat) (n : Bytes) (ks : List T) :
+    Src.fileConsiderer.isFile ⟨exts⟩ (toNode h (.mk n ks)) = isFileNode exts n (!ks.isEmpty) :=
+  isFile_src exts h n ks
 end Gtree
